@@ -124,6 +124,14 @@ CHECKS = {
          "alternatives): contains(w) on all words <=4 equals membership in the ground instantiation; feature-free grammars agree with CFG.contains. Exploration.",
          "Trusts vlib/ref_fs.py; one value domain {u,v} for all features; structures of depth <=3.",
          "DESIGN.md section 4, C18"),
+ "C19": ("stateful property-based testing (Hypothesis RuleBasedStateMachine per object family; twin rebuilt from the recipe as the model)",
+         "Histories of builds, conversions, combinations (same object as both operands), shared State/Symbol objects, explicit queries and mutations of "
+         "returned objects over five object families; after every step every pooled object must answer a battery of public queries exactly like a twin "
+         "rebuilt from its recipe, and no operand's structural snapshot may change. The shrunk history (JSON) is replayed by a plain interpreter without "
+         "Hypothesis. One genuine defect stays open (F19d: the result of IndexedGrammar.intersection cannot be intersected again). Exploration: histories "
+         "are sampled.",
+         "The rebuilt twin is the 'freshly built equal object'; identity results (dfa.to_deterministic() is dfa) are modelled as aliases.",
+         "DESIGN.md section 4, C19"),
  "C20": (PBT + " (structural round-trip equality on extracted descriptions; exact language equality for recursive-automaton boxes)",
          "Automata, PDAs and transducers over JSON-representable values (odd strings, floats, names like starting_q / INITIAL_STACK_HIDDEN, isolated "
          "states, parallel edges, multi-symbol pushes/outputs): from_networkx(to_networkx(x)) has the same states, marking, transitions and start stack "
